@@ -91,7 +91,12 @@ class TaskScheduler(object):
         # items waiting to be flushed, or computed).
         while len(self._tasks) > init_num_tasks:
             if len(self._tasks) > _debug_options.MAX_TASK_STACK_SIZE:
+                # Whoever called us (a task making a synchronous call, or nobody) keeps
+                # running once it has received the error raised below, so it remains the
+                # active task.
+                active_task = self.active_task
                 self.reset()
+                self.active_task = active_task
                 debug.dump(self)
                 raise RuntimeError(
                     "Number of scheduled tasks exceeded maximum threshold."
